@@ -714,24 +714,31 @@ Section InsertKnown.
     - apply insert_known_inv; [rewrite Hk; exact Hin | exact H1].
   Qed.
 
-  Lemma dial_outcome_inv k s peer outcome errs tcp ws :
-    (forall a, In a (tcp ++ ws) -> In a (keys s) /\ names peer a = true) -> SInv P k s ->
-    SInv P k (dial_outcome k s peer outcome errs tcp ws).
+  Lemma dial_outcome_inv k s peer outcome errs tcp ws qu :
+    (forall a, In a (tcp ++ ws ++ qu) -> In a (keys s) /\ names peer a = true) -> SInv P k s ->
+    SInv P k (dial_outcome k s peer outcome errs tcp ws qu).
   Proof.
     intros Hl Hs. unfold dial_outcome.
     assert (Ht : forall a, In a (map fst (tag_errs errs 0 tcp)) -> In a (keys s) /\ names peer a = true).
     { intros a Ha. rewrite tag_errs_fst in Ha. apply Hl. apply in_or_app. now left. }
     assert (Hw : forall a, In a (map fst (tag_errs errs (length tcp) ws)) -> In a (keys s) /\ names peer a = true).
-    { intros a Ha. rewrite tag_errs_fst in Ha. apply Hl. apply in_or_app. now right. }
+    { intros a Ha. rewrite tag_errs_fst in Ha. apply Hl. apply in_or_app. right. apply in_or_app. now left. }
+    assert (Hq : forall a, In a (map fst (tag_errs errs (length tcp + length ws) qu)) ->
+                           In a (keys s) /\ names peer a = true).
+    { intros a Ha. rewrite tag_errs_fst in Ha. apply Hl. apply in_or_app. right. apply in_or_app. now right. }
     destruct outcome as [|j0].
     - destruct (fail_each_inv k s (tag_errs errs 0 tcp)) as [H1 Hk]; [|exact Hs|].
       { intros a Ha. exact (proj1 (Ht a Ha)). }
       destruct (fail_each_inv k (fail_each k s (tag_errs errs 0 tcp)) (tag_errs errs (length tcp) ws))
-        as [H2 _]; [|exact H1|exact H2].
-      intros a Ha. rewrite Hk. exact (proj1 (Hw a Ha)).
-    - destruct (j0 mod (length tcp + length ws) <? length tcp)%nat.
+        as [H2 Hk2]; [|exact H1|].
+      { intros a Ha. rewrite Hk. exact (proj1 (Hw a Ha)). }
+      destruct (fail_each_inv k (fail_each k (fail_each k s (tag_errs errs 0 tcp)) (tag_errs errs (length tcp) ws))
+                  (tag_errs errs (length tcp + length ws) qu)) as [H3 _]; [|exact H2|exact H3].
+      intros a Ha. rewrite Hk2, Hk. exact (proj1 (Hq a Ha)).
+    - destruct (j0 mod (length tcp + length ws + length qu) <? length tcp)%nat.
       + apply succeed_at_inv; assumption.
-      + apply succeed_at_inv; assumption.
+      + destruct (j0 mod (length tcp + length ws + length qu) <? length tcp + length ws)%nat;
+          apply succeed_at_inv; assumption.
   Qed.
 End InsertKnown.
 
@@ -749,16 +756,22 @@ Definition remembered_ok (c : cfg) (p : N) (a : maddr) : Prop :=
   last a (Other 0) = P2p p /\ enabled c (route c a) = true /\
   exists ho port, parse (route c a) a = Some (ho, port, Some p).
 
+Lemma own_listen_false c ls a :
+  own_listen c ls a = false ->
+  existsb (maddr_eqb a) (listen_set c ls) = false /\
+  existsb (maddr_eqb (strip_p2p a)) (listen_set c ls) = false.
+Proof. unfold own_listen. intro H. apply orb_false_iff in H. exact H. Qed.
+
 Lemma dial_addr_ok_spec c st a t q :
   dial_addr_check c st a = DAOk t q ->
   free_capacity c st 0 <> None /\
-  existsb (maddr_eqb a) (listen_set c (lst st)) = false /\
+  own_listen c (lst st) a = false /\
   route c a = t /\ remembered_ok c q a.
 Proof.
   unfold dial_addr_check, remembered_ok.
   destruct (free_capacity c st 0) as [lim|]; [|discriminate].
   destruct (last a (Other 0)) eqn:Hl; try discriminate.
-  destruct (existsb (maddr_eqb a) (listen_set c (lst st))) eqn:Hself; [discriminate|].
+  destruct (own_listen c (lst st) a) eqn:Hself; [discriminate|].
   destruct a as [|h rest]; [discriminate|].
   destruct (is_host h) eqn:Hh; [|discriminate].
   destruct (is_host_not _ Hh) as [Hq Hw]. destruct (is_host_host _ Hh) as [ho Hho].
@@ -819,7 +832,7 @@ Proof. destruct h; cbn; intro H; try discriminate H; reflexivity. Qed.
 
 Lemma supported_dial_addr c st a :
   supported c a = true -> free_capacity c st 0 <> None ->
-  existsb (maddr_eqb a) (listen_set c (lst st)) = false ->
+  own_listen c (lst st) a = false ->
   exists q, last a (Other 0) = P2p q /\ dial_addr_check c st a = DAOk (route c a) q.
 Proof.
   intros Hs Hc Hself. destruct (supported_dialable _ _ Hs) as [q [Hl [He _]]].
@@ -863,7 +876,7 @@ Section BookInv.
   (* what the user may hand to dial_address *)
   Variable dial_wf : maddr -> Prop.
   Hypothesis P_add : forall ls p a, incl L0 ls -> acceptable c ls p a -> P p a.
-  Hypothesis P_dial : forall st a t q, dial_wf a -> dial_addr_check c st a = DAOk t q -> P q a.
+  Hypothesis P_dial : forall st a t q, incl L0 (lst st) -> dial_wf a -> dial_addr_check c st a = DAOk t q -> P q a.
 
   Definition BInv (b : book) : Prop := forall p s, get p b = Some s -> SInv (P p) k s.
   Definition StInv (st : state) : Prop := incl L0 (lst st) /\ BInv (bk st).
@@ -875,6 +888,7 @@ Section BookInv.
     | OEstablished peer a false _ => P peer (with_peer peer a)
     | OInsert peer a _ _ => P peer (with_peer peer a)
     | ODialAddr a _ _ => dial_wf a
+    | ODialAddrRefused a _ => dial_wf a
     | _ => True
     end.
 
@@ -916,8 +930,8 @@ Section BookInv.
   Proof.
     intros [Hl Hb] Hwf.
     destruct o as [peer addrs order victims | a f victim | peer a listener victim
-                  | peer limit obs | a | a | n | peer outcome errs tcp ws
-                  | peer a sc victim | a res victims | a | a]; cbn [step].
+                  | peer limit obs | a | a | n | peer outcome errs tcp ws qu
+                  | peer a sc victim | a res victims | a | a | a victims]; cbn [step].
     - destruct (same_set order (accepted c (lst st) peer addrs)) eqn:Hss; [|split; assumption].
       pose proof (insert_all_inv peer (get_or_empty peer (bk st)) order victims
                     (binv_get_or_empty (bk st) peer Hb)) as H.
@@ -941,17 +955,19 @@ Section BookInv.
     - split; assumption.
     - split; assumption.
     - cbn [fst lst bk]. split; [|exact Hb]. intros x Hx. apply in_or_app. left. exact (Hl _ Hx).
-    - destruct (en_tcp c || feat_ws c && en_ws c); cbn [fst lst bk]; split; assumption.
+    - destruct (en_tcp c || feat_ws c && en_ws c || feat_quic c && en_quic c); cbn [fst lst bk]; split; assumption.
     - set (s := get_or_empty peer (bk st)).
       destruct (existsb (fun x => negb (enabled c (route c (fst x)) && names peer (fst x))) s) eqn:Hg;
         [split; assumption|].
       destruct (free_capacity c st (length s)) as [limit|]; [|split; assumption].
       destruct (N.eqb peer (local_peer c)); [split; assumption|].
       destruct s as [|x0 s0] eqn:Hs; [split; assumption|]. rewrite <- Hs in *.
-      destruct (forallb (fun a => mem a s) (tcp ++ ws)) eqn:Hm; cbn [andb]; [|split; assumption].
+      destruct (forallb (fun a => mem a s) (tcp ++ ws ++ qu)) eqn:Hm; cbn [andb]; [|split; assumption].
       destruct (forallb (fun a => match route c a with TTcp => true | _ => false end) tcp &&
                 forallb (fun a => match route c a with TWs => true | _ => false end) ws &&
-                addresses_ok limit s (merge_desc (with_scores s tcp) (with_scores s ws)));
+                forallb (fun a => match route c a with TQuic => true | _ => false end) qu &&
+                addresses_ok limit s (merge_desc (merge_desc (with_scores s tcp) (with_scores s ws))
+                                                 (with_scores s qu)));
         [|split; assumption].
       cbn [fst set_bk lst bk]. split; [exact Hl|]. apply binv_put; [exact Hb|].
       apply dial_outcome_inv; [|exact (binv_get_or_empty (bk st) peer Hb)].
@@ -969,7 +985,7 @@ Section BookInv.
       cbn [fst set_bk lst bk] in *. split; [exact Hl|]. apply binv_put; assumption.
     - cbn [op_wf] in Hwf.
       destruct (dial_addr_check c st a) as [| | | |t q] eqn:Hd; try (split; assumption).
-      pose proof (P_dial st a t q Hwf Hd) as Pa.
+      pose proof (P_dial st a t q Hl Hwf Hd) as Pa.
       pose proof (insert_inv (P q) k (get_or_empty q (bk st)) a 0 (hd_error victims)
                     (binv_get_or_empty (bk st) q Hb) Pa) as H1.
       destruct (insert k (get_or_empty q (bk st)) a 0 (hd_error victims)) as [s1 r1].
@@ -981,6 +997,13 @@ Section BookInv.
       cbn [fst set_bk lst bk] in *. split; [exact Hl|]. apply binv_put; assumption.
     - destruct (public_add c (pubs st) a) as [ps r]. cbn [fst lst bk]. split; assumption.
     - cbn [fst lst bk]. split; assumption.
+    - cbn [op_wf] in Hwf.
+      destruct (dial_addr_check c st a) as [| | | |t q] eqn:Hd; try (split; assumption).
+      pose proof (P_dial st a t q Hl Hwf Hd) as Pa.
+      pose proof (insert_inv (P q) k (get_or_empty q (bk st)) a 0 (hd_error victims)
+                    (binv_get_or_empty (bk st) q Hb) Pa) as H1.
+      destruct (insert k (get_or_empty q (bk st)) a 0 (hd_error victims)) as [s1 r1].
+      cbn [fst set_bk lst bk] in *. split; [exact Hl|]. apply binv_put; assumption.
   Qed.
 
   Lemma run_inv h st : StInv st -> Forall op_wf h -> StInv (fst (run c k st h)).
@@ -998,7 +1021,7 @@ End BookInv.
 
 (* bound and key uniqueness need no assumption on the environment *)
 Lemma op_wf_true o : op_wf (fun _ _ => True) (fun _ => True) o.
-Proof. destruct o as [| | ? ? [|] ?| | | | | | | | |]; cbn; auto. Qed.
+Proof. destruct o as [| | ? ? [|] ?| | | | | | | | | |]; cbn; auto. Qed.
 
 Lemma final_bound c k h p s :
   get p (bk (final c k h)) = Some s -> (length s <= cap k)%nat /\ NoDup (keys s).
@@ -1019,12 +1042,12 @@ Definition op_ok (c : cfg) (L0 : list maddr) : op -> Prop :=
 
 Lemma acceptable_hyps c L0 :
   (forall ls p a, incl L0 ls -> acceptable c ls p a -> acceptable c L0 p a) /\
-  (forall st a t q, dial_acceptable c L0 a -> dial_addr_check c st a = DAOk t q -> acceptable c L0 q a).
+  (forall st a t q, incl L0 (lst st) -> dial_acceptable c L0 a -> dial_addr_check c st a = DAOk t q -> acceptable c L0 q a).
 Proof.
   split.
   - intros ls q b Hincl [H1 [H2 H3]]. repeat split; [exact H1 | | exact H3].
     exact (is_local_mono _ _ _ _ Hincl H2).
-  - intros st a t q Hw Hd. apply Hw.
+  - intros st a t q _ Hw Hd. apply Hw.
     destruct (dial_addr_ok_spec _ _ _ _ _ Hd) as [_ [_ [_ [Hl _]]]]. exact Hl.
 Qed.
 
@@ -1078,9 +1101,99 @@ Proof.
   assert (Hi : StInv k L0 (remembered_ok c) (fst (run c k (mkState [] L0 0 []) h))).
   { apply (run_inv c k L0 _ (fun _ => True)); [| |apply stinv_start|exact Hw].
     - intros ls q b _ Ha. exact (acceptable_remembered _ _ _ _ Ha).
-    - intros st b t q _ Hd. exact (proj2 (proj2 (proj2 (dial_addr_ok_spec _ _ _ _ _ Hd)))). }
+    - intros st b t q _ _ Hd. exact (proj2 (proj2 (proj2 (dial_addr_ok_spec _ _ _ _ _ Hd)))). }
   destruct Hi as [_ Hi]. destruct (Hi _ _ Hg) as [_ _ Ha]. rewrite Forall_forall in Ha.
   exact (Ha _ Hin).
+Qed.
+
+(* ... and none of them is one of the node's own listen addresses L0, under whatever peer id:
+   add_known_address strips the /p2p suffix before it looks the address up in the listen set, and
+   so does dial_address (TriedToDialSelf). No condition on what dial_address is handed. *)
+Definition not_own (c : cfg) (ls : list maddr) (a : maddr) : Prop :=
+  existsb (maddr_eqb (strip_p2p a)) (listen_set c ls) = false.
+Definition remembered_strict (c : cfg) (L0 : list maddr) (p : N) (a : maddr) : Prop :=
+  remembered_ok c p a /\ not_own c L0 a.
+Definition op_strict (c : cfg) (L0 : list maddr) : op -> Prop :=
+  op_wf (remembered_strict c L0) (fun _ => True).
+
+Lemma not_own_mono c l1 l2 a : incl l1 l2 -> not_own c l2 a -> not_own c l1 a.
+Proof.
+  unfold not_own. intros Hi H. exact (existsb_incl _ _ _ (listen_set_incl c _ _ Hi) H).
+Qed.
+
+Lemma is_local_not_own c ls a : is_local c ls a = false -> not_own c ls a.
+Proof.
+  unfold is_local, not_own.
+  destruct (existsb (maddr_eqb (strip_p2p a)) (listen_set c ls)); [discriminate|reflexivity].
+Qed.
+
+Lemma not_own_spec c ls a :
+  not_own c ls a <->
+  forall l, In l ls -> strip_p2p a <> l /\ strip_p2p a <> l ++ [P2p (local_peer c)].
+Proof.
+  unfold not_own. split.
+  - intros H l Hl.
+    assert (Hn : forall x, In x (listen_set c ls) -> strip_p2p a <> x).
+    { intros x Hx Heq. assert (existsb (maddr_eqb (strip_p2p a)) (listen_set c ls) = true).
+      { apply existsb_maddr. rewrite Heq. exact Hx. } congruence. }
+    split; apply Hn; unfold listen_set; apply in_flat_map; exists l; (split; [exact Hl|]); cbn; auto.
+  - intro H. destruct (existsb (maddr_eqb (strip_p2p a)) (listen_set c ls)) eqn:E; [|reflexivity].
+    apply existsb_maddr in E. unfold listen_set in E. apply in_flat_map in E.
+    destruct E as [l [Hl Hx]]. destruct (H l Hl) as [H1 H2].
+    cbn in Hx. destruct Hx as [Hx|[Hx|[]]]; congruence.
+Qed.
+
+Lemma run_strict c k L0 h p s a z :
+  Forall (op_strict c L0) h ->
+  get p (bk (fst (run c k (mkState [] L0 0 []) h))) = Some s -> In (a, z) s ->
+  remembered_strict c L0 p a.
+Proof.
+  intros Hw Hg Hin.
+  assert (Hi : StInv k L0 (remembered_strict c L0) (fst (run c k (mkState [] L0 0 []) h))).
+  { apply (run_inv c k L0 _ (fun _ => True)); [| |apply stinv_start|exact Hw].
+    - intros ls q b Hincl Ha. split; [exact (acceptable_remembered _ _ _ _ Ha)|].
+      destruct Ha as [_ [Hloc _]]. exact (not_own_mono _ _ _ _ Hincl (is_local_not_own _ _ _ Hloc)).
+    - intros st b t q Hincl _ Hd.
+      destruct (dial_addr_ok_spec _ _ _ _ _ Hd) as [_ [Hown [_ Hr]]]. split; [exact Hr|].
+      exact (not_own_mono _ _ _ _ Hincl (proj2 (own_listen_false _ _ _ Hown))). }
+  destruct Hi as [_ Hi]. destruct (Hi _ _ Hg) as [_ _ Ha]. rewrite Forall_forall in Ha.
+  exact (Ha _ Hin).
+Qed.
+
+(* TransportService::add_known_address: what is remembered is an offered address that names the
+   peer, or an offered address that ends in no peer id with the id appended *)
+Lemma ts_prepare_spec peer l : ts_prepare peer l = map (with_peer peer) l.
+Proof. reflexivity. Qed.
+
+Lemma service_offer c ls peer l a :
+  In a (accepted c ls peer (ts_prepare peer l)) ->
+  (exists a0, In a0 l /\
+     ((last a0 (Other 0) = P2p peer /\ a = a0) \/
+      ((forall q, last a0 (Other 0) <> P2p q) /\ a = a0 ++ [P2p peer]))) /\
+  supported c a = true /\ is_local c ls a = false /\ last a (Other 0) = P2p peer.
+Proof.
+  intro H. destruct (accepted_acceptable _ _ _ _ _ H) as [Hin [Hs [Hloc Hl]]].
+  split; [|repeat split; assumption].
+  unfold ts_prepare in Hin. apply in_map_iff in Hin. destruct Hin as [a0 [Ha Hin]].
+  exists a0. split; [exact Hin|].
+  destruct (last a0 (Other 0)) eqn:E;
+    try (right; split; [intros q; discriminate | symmetry; exact Ha]).
+  left. subst a. rewrite E in Hl. injection Hl as ->. split; reflexivity.
+Qed.
+
+(* Litep2p level: Litep2p::new registers the listen addresses ls of its transports and then adds
+   the configured known addresses; afterwards only add_known_address is used. Whatever is
+   remembered is supported, names its peer and is not local with respect to ls. *)
+Definition only_adds (h : list op) : Prop :=
+  Forall (fun o => match o with OAdd _ _ _ _ => True | _ => False end) h.
+
+Lemma litep2p_level c k ls h p s a z :
+  only_adds h ->
+  get p (bk (fst (run c k (mkState [] ls 0 []) h))) = Some s -> In (a, z) s ->
+  acceptable c ls p a /\ dialable c a p.
+Proof.
+  intros Ho. apply run_acceptable. unfold only_adds in Ho. rewrite Forall_forall in *.
+  intros o Hin. specialize (Ho o Hin). destruct o; try contradiction. exact I.
 Qed.
 
 (* add_known_address on addresses that are all known already changes nothing *)
@@ -1303,39 +1416,33 @@ Proof.
   inversion H; subst. apply IH. assumption.
 Qed.
 
+Lemma fail_each_app k s l1 l2 : fail_each k (fail_each k s l1) l2 = fail_each k s (l1 ++ l2).
+Proof.
+  revert s. induction l1 as [|[a e] t IH]; intro s; cbn [fail_each app]; [reflexivity|]. apply IH.
+Qed.
+
+(* the attempts of a dial, in the order tcp ++ ws ++ qu, each with its error kind *)
+Definition attempts (errs : list dial_error) (tcp ws qu : list maddr) : list (maddr * dial_error) :=
+  tag_errs errs 0 tcp ++ tag_errs errs (length tcp) ws ++ tag_errs errs (length tcp + length ws) qu.
+
+Lemma attempts_fst errs tcp ws qu : map fst (attempts errs tcp ws qu) = tcp ++ ws ++ qu.
+Proof. unfold attempts. rewrite !map_app, !tag_errs_fst. reflexivity. Qed.
+
 (* every attempt failed: exactly the tried addresses are re-scored, each to the score of the
    error kind its attempt failed with *)
-Lemma dial_all_fail_find k s peer errs tcp ws b :
-  NoDup (keys s) -> NoDup (tcp ++ ws) -> (forall a, In a (tcp ++ ws) -> In a (keys s)) ->
+Lemma dial_all_fail_find k s peer errs tcp ws qu b :
+  NoDup (keys s) -> NoDup (tcp ++ ws ++ qu) -> (forall a, In a (tcp ++ ws ++ qu) -> In a (keys s)) ->
   (forall e, error_score k e <> 0) ->
-  find b (dial_outcome k s peer 0 errs tcp ws) =
-    match lookup_err b (tag_errs errs 0 tcp ++ tag_errs errs (length tcp) ws) with
+  find b (dial_outcome k s peer 0 errs tcp ws qu) =
+    match lookup_err b (attempts errs tcp ws qu) with
     | Some e => Some (error_score k e)
     | None => find b s
     end.
 Proof.
-  intros Hnd Hndl Hl Hf. cbn [dial_outcome].
-  assert (Ht : forall a, In a (map fst (tag_errs errs 0 tcp)) -> In a (keys s)).
-  { intros a Ha. rewrite tag_errs_fst in Ha. apply Hl, in_or_app. now left. }
-  assert (Hw : forall a, In a (map fst (tag_errs errs (length tcp) ws)) -> In a (keys s)).
-  { intros a Ha. rewrite tag_errs_fst in Ha. apply Hl, in_or_app. now right. }
-  pose proof (fail_each_keys k s _ Ht) as Hk.
-  rewrite fail_each_find; [|rewrite Hk; exact Hnd|rewrite tag_errs_fst; exact (nodup_app_r _ _ Hndl)
-                           |intros a Ha; rewrite Hk; exact (Hw _ Ha)|exact Hf].
-  rewrite fail_each_find; [|exact Hnd|rewrite tag_errs_fst; exact (nodup_app_l _ _ Hndl)|exact Ht|exact Hf].
-  rewrite lookup_err_app.
-  destruct (lookup_err b (tag_errs errs 0 tcp)) as [e1|] eqn:E1;
-    destruct (lookup_err b (tag_errs errs (length tcp) ws)) as [e2|] eqn:E2; try reflexivity.
-  (* an address in both lists: excluded by NoDup *)
-  exfalso.
-  assert (H1 : In b tcp).
-  { rewrite <- (tag_errs_fst errs 0 tcp). exact (lookup_err_some _ _ _ E1). }
-  assert (H2 : In b ws).
-  { rewrite <- (tag_errs_fst errs (length tcp) ws). exact (lookup_err_some _ _ _ E2). }
-  clear - Hndl H1 H2. induction tcp as [|x t IH]; [destruct H1|].
-  cbn [app] in Hndl. inversion Hndl as [|? ? Hx Hd]; subst. destruct H1 as [->|H1].
-  - apply Hx. apply in_or_app. now right.
-  - exact (IH Hd H1).
+  intros Hnd Hndl Hl Hf. cbn [dial_outcome]. rewrite !fail_each_app.
+  fold (attempts errs tcp ws qu).
+  apply fail_each_find; [exact Hnd | rewrite attempts_fst; exact Hndl | | exact Hf].
+  intros a Ha. rewrite attempts_fst in Ha. exact (Hl a Ha).
 Qed.
 
 (* attempt j succeeded after the earlier ones on that transport failed: the address used gets
@@ -1389,18 +1496,19 @@ Qed.
 (* dial(peer): the lists handed to the transports' open() are, merged, a valid
    addresses(limit) selection for limit = free outbound capacity; every address goes to the
    installed transport it is routed to; the outcome is then recorded by dial_outcome *)
-Lemma step_dial_tried c k st peer outcome errs tcp ws t w st' :
-  step c k st (ODial peer outcome errs tcp ws) = (st', RDial (DTried t w)) ->
+Lemma step_dial_tried c k st peer outcome errs tcp ws qu t w q st' :
+  step c k st (ODial peer outcome errs tcp ws qu) = (st', RDial (DTried t w q)) ->
   let s := get_or_empty peer (bk st) in
   exists limit,
     free_capacity c st (length s) = Some limit /\
     peer <> local_peer c /\
-    t = with_scores s tcp /\ w = with_scores s ws /\
-    addresses_ok limit s (merge_desc t w) = true /\
-    Permutation (merge_desc t w) (t ++ w) /\
+    t = with_scores s tcp /\ w = with_scores s ws /\ q = with_scores s qu /\
+    addresses_ok limit s (merge_desc (merge_desc t w) q) = true /\
+    Permutation (merge_desc (merge_desc t w) q) (t ++ w ++ q) /\
     Forall (fun a => In a (keys s) /\ names peer a = true /\ route c a = TTcp /\ enabled c TTcp = true) tcp /\
     Forall (fun a => In a (keys s) /\ names peer a = true /\ route c a = TWs /\ enabled c TWs = true) ws /\
-    st' = set_bk st (put peer (dial_outcome k s peer outcome errs tcp ws) (bk st)).
+    Forall (fun a => In a (keys s) /\ names peer a = true /\ route c a = TQuic /\ enabled c TQuic = true) qu /\
+    st' = set_bk st (put peer (dial_outcome k s peer outcome errs tcp ws qu) (bk st)).
 Proof.
   cbn [step]. set (s := get_or_empty peer (bk st)). cbn zeta.
   destruct (existsb (fun x => negb (enabled c (route c (fst x)) && names peer (fst x))) s) eqn:Hg;
@@ -1408,15 +1516,18 @@ Proof.
   destruct (free_capacity c st (length s)) as [limit|] eqn:Hc; [|discriminate].
   destruct (N.eqb peer (local_peer c)) eqn:Hp; [discriminate|].
   destruct s as [|x0 s0] eqn:Hs; [discriminate|]. rewrite <- Hs in *.
-  destruct (forallb (fun a => mem a s) (tcp ++ ws)) eqn:Hm; cbn [andb]; [|discriminate].
+  destruct (forallb (fun a => mem a s) (tcp ++ ws ++ qu)) eqn:Hm; cbn [andb]; [|discriminate].
   destruct (forallb (fun a => match route c a with TTcp => true | _ => false end) tcp) eqn:Hrt;
     cbn [andb]; [|discriminate].
   destruct (forallb (fun a => match route c a with TWs => true | _ => false end) ws) eqn:Hrw;
     cbn [andb]; [|discriminate].
-  destruct (addresses_ok limit s (merge_desc (with_scores s tcp) (with_scores s ws))) eqn:Hok;
+  destruct (forallb (fun a => match route c a with TQuic => true | _ => false end) qu) eqn:Hrq;
+    cbn [andb]; [|discriminate].
+  destruct (addresses_ok limit s (merge_desc (merge_desc (with_scores s tcp) (with_scores s ws))
+                                             (with_scores s qu))) eqn:Hok;
     [|discriminate].
-  intros [= <- <- <-]. exists limit.
-  assert (Hfacts : forall a, In a (tcp ++ ws) ->
+  intros [= <- <- <- <-]. exists limit.
+  assert (Hfacts : forall a, In a (tcp ++ ws ++ qu) ->
             In a (keys s) /\ names peer a = true /\ enabled c (route c a) = true).
   { intros a Ha. rewrite forallb_forall in Hm. specialize (Hm _ Ha). apply mem_in in Hm.
     split; [exact Hm|]. apply in_map_iff in Hm. destruct Hm as [x [Hx1 Hx2]].
@@ -1428,12 +1539,16 @@ Proof.
   repeat split; try reflexivity.
   - apply N.eqb_neq. exact Hp.
   - exact Hok.
-  - apply merge_desc_perm.
+  - eapply Permutation_trans; [apply merge_desc_perm|]. rewrite app_assoc.
+    apply Permutation_app_tail. apply merge_desc_perm.
   - apply Forall_forall. intros a Ha. rewrite forallb_forall in Hrt. specialize (Hrt _ Ha).
     destruct (Hfacts a (in_or_app _ _ _ (or_introl Ha))) as [H1 [H2 H3]].
     destruct (route c a) eqn:Hr; try discriminate. repeat split; assumption.
   - apply Forall_forall. intros a Ha. rewrite forallb_forall in Hrw. specialize (Hrw _ Ha).
-    destruct (Hfacts a (in_or_app _ _ _ (or_intror Ha))) as [H1 [H2 H3]].
+    destruct (Hfacts a (in_or_app _ _ _ (or_intror (in_or_app _ _ _ (or_introl Ha))))) as [H1 [H2 H3]].
+    destruct (route c a) eqn:Hr; try discriminate. repeat split; assumption.
+  - apply Forall_forall. intros a Ha. rewrite forallb_forall in Hrq. specialize (Hrq _ Ha).
+    destruct (Hfacts a (in_or_app _ _ _ (or_intror (in_or_app _ _ _ (or_intror Ha))))) as [H1 [H2 H3]].
     destruct (route c a) eqn:Hr; try discriminate. repeat split; assumption.
 Qed.
 
@@ -1667,12 +1782,16 @@ Proof.
   apply insert_ranged; [|exact (proj1 Hk)]. apply insert_ranged; [exact H1 | exact (proj1 Hk)].
 Qed.
 
-Lemma dial_outcome_ranged k s peer outcome errs tcp ws :
-  kwf k -> ranged s -> ranged (dial_outcome k s peer outcome errs tcp ws).
+Lemma dial_outcome_ranged k s peer outcome errs tcp ws qu :
+  kwf k -> ranged s -> ranged (dial_outcome k s peer outcome errs tcp ws qu).
 Proof.
   intros Hk Hs. unfold dial_outcome. destruct outcome as [|j0].
-  - apply fail_each_ranged; [exact Hk|]. apply fail_each_ranged; assumption.
-  - destruct (j0 mod (length tcp + length ws) <? length tcp)%nat; apply succeed_at_ranged; assumption.
+  - apply fail_each_ranged; [exact Hk|]. apply fail_each_ranged; [exact Hk|].
+    apply fail_each_ranged; assumption.
+  - destruct (j0 mod (length tcp + length ws + length qu) <? length tcp)%nat;
+      [apply succeed_at_ranged; assumption|].
+    destruct (j0 mod (length tcp + length ws + length qu) <? length tcp + length ws)%nat;
+      apply succeed_at_ranged; assumption.
 Qed.
 
 Definition RInv (b : book) : Prop := forall p s, get p b = Some s -> ranged s.
@@ -1693,8 +1812,8 @@ Lemma step_ranged c k st o : kwf k -> RInv (bk st) -> op_i32 o -> RInv (bk (fst 
 Proof.
   intros Hk Hb Hw.
   destruct o as [peer addrs order victims | a f victim | peer a listener victim
-                | peer limit obs | a | a | n | peer outcome errs tcp ws
-                | peer a sc victim | a res victims | a | a]; cbn [step].
+                | peer limit obs | a | a | n | peer outcome errs tcp ws qu
+                | peer a sc victim | a res victims | a | a | a victims]; cbn [step].
   - destruct (same_set order (accepted c (lst st) peer addrs)); [|exact Hb].
     pose proof (insert_all_ranged k (get_or_empty peer (bk st)) order victims (rinv_get_or_empty _ peer Hb)) as H.
     destruct (insert_all k (get_or_empty peer (bk st)) order victims) as [s' bad].
@@ -1712,7 +1831,7 @@ Proof.
   - exact Hb.
   - exact Hb.
   - exact Hb.
-  - destruct (en_tcp c || feat_ws c && en_ws c); exact Hb.
+  - destruct (en_tcp c || feat_ws c && en_ws c || feat_quic c && en_quic c); exact Hb.
   - destruct (existsb _ (get_or_empty peer (bk st))); [exact Hb|].
     destruct (free_capacity c st (length (get_or_empty peer (bk st)))); [|exact Hb].
     destruct (N.eqb peer (local_peer c)); [exact Hb|].
@@ -1737,6 +1856,11 @@ Proof.
     cbn [fst set_bk bk] in *. apply rinv_put; assumption.
   - destruct (public_add c (pubs st) a). exact Hb.
   - exact Hb.
+  - destruct (dial_addr_check c st a) as [| | | |t q]; try exact Hb.
+    pose proof (insert_ranged k (get_or_empty q (bk st)) a 0 (hd_error victims)
+                  (rinv_get_or_empty _ q Hb) zero_i32) as H1.
+    destruct (insert k (get_or_empty q (bk st)) a 0 (hd_error victims)) as [s1 r1].
+    cbn [fst set_bk bk] in *. apply rinv_put; assumption.
 Qed.
 
 Lemma run_ranged c k h st : kwf k -> RInv (bk st) -> Forall op_i32 h -> RInv (bk (fst (run c k st h))).
@@ -1822,8 +1946,8 @@ Proof.
   intros [Hf Hn].
   assert (Hsame : forall st', pubs st' = pubs st -> PInv c st') by (intros st' E; unfold PInv; rewrite E; split; assumption).
   destruct o as [peer addrs order victims | a f victim | peer a listener victim
-                | peer limit obs | a | a | n | peer outcome errs tcp ws
-                | peer a sc victim | a res victims | a | a]; cbn [step].
+                | peer limit obs | a | a | n | peer outcome errs tcp ws qu
+                | peer a sc victim | a res victims | a | a | a victims]; cbn [step].
   - destruct (same_set _ _); [|apply Hsame; reflexivity].
     destruct (insert_all _ _ _ _). apply Hsame. reflexivity.
   - destruct (last a (Other 0)); try (apply Hsame; reflexivity).
@@ -1832,7 +1956,7 @@ Proof.
   - apply Hsame. reflexivity.
   - apply Hsame. reflexivity.
   - apply Hsame. reflexivity.
-  - destruct (en_tcp c || feat_ws c && en_ws c); apply Hsame; reflexivity.
+  - destruct (en_tcp c || feat_ws c && en_ws c || feat_quic c && en_quic c); apply Hsame; reflexivity.
   - destruct (existsb _ _); [apply Hsame; reflexivity|].
     destruct (free_capacity _ _ _); [|apply Hsame; reflexivity].
     destruct (N.eqb _ _); [apply Hsame; reflexivity|].
@@ -1853,6 +1977,8 @@ Proof.
   - cbn [fst pubs]. split; [|apply remove_addr_nodup; exact Hn].
     apply Forall_forall. intros x Hx. rewrite Forall_forall in Hf. apply Hf.
     exact (remove_addr_in _ _ _ Hx).
+  - destruct (dial_addr_check c st a); try (apply Hsame; reflexivity).
+    destruct (insert _ _ _ _ _) as [s1 r1]. apply Hsame. reflexivity.
 Qed.
 
 Lemma run_pubs c k h st : PInv c st -> PInv c (fst (run c k st h)).
@@ -1952,4 +2078,49 @@ Proof.
     { unfold s1. rewrite app_length. cbn [length]. lia. }
     destruct (IH s1 vs Hnd1 Hl1 Hb1) as [H1 H2].
     destruct (insert_all k s1 t vs) as [s2 bad]. cbn [fst snd] in *. split; assumption.
+Qed.
+
+(* dial_address when the transport's dial() returns an error (the dial is not started): a stored
+   address keeps its score; a new one, while there is room, is remembered as untested (score 0, or
+   the public bonus) - it passed dial_address's check (C10_dial_address_filter) *)
+Lemma step_dial_addr_refused c k st a vs t q :
+  dial_addr_check c st a = DAOk t q ->
+  let s := get_or_empty q (bk st) in
+  let st' := fst (step c k st (ODialAddrRefused a vs)) in
+  (forall z0, find a s = Some z0 -> get q (bk st') = Some s) /\
+  (find a s = None -> (length s < cap k)%nat ->
+     get q (bk st') = Some (s ++ [(a, new_score k a 0)])) /\
+  (forall p, p <> q -> get p (bk st') = get p (bk st)) /\
+  lst st' = lst st /\ held st' = held st /\ pubs st' = pubs st.
+Proof.
+  intros Hd s st'. unfold st'. cbn [step]. rewrite Hd. fold s.
+  repeat split.
+  - intros z0 Hf. rewrite (insert_rediscovery k s a (hd_error vs) z0 Hf). cbn [fst set_bk bk].
+    apply get_put_same.
+  - intros Hf Hl. rewrite (insert_room k s a 0 (hd_error vs) Hf Hl). cbn [fst set_bk bk].
+    apply get_put_same.
+  - intros p Hp. destruct (insert k s a 0 (hd_error vs)) as [s1 r1]. cbn [fst set_bk bk].
+    apply get_put_other. exact Hp.
+  - destruct (insert k s a 0 (hd_error vs)) as [s1 r1]. reflexivity.
+  - destruct (insert k s a 0 (hd_error vs)) as [s1 r1]. reflexivity.
+  - destruct (insert k s a 0 (hd_error vs)) as [s1 r1]. reflexivity.
+Qed.
+
+(* histories made of API calls and complete dial episodes only (no dial result reported out of the
+   blue, no raw store insert): nothing has to be assumed about the environment *)
+Definition api_op (o : op) : Prop :=
+  match o with
+  | ODialFailure _ _ _ | OEstablished _ _ false _ | OInsert _ _ _ _ => False
+  | _ => True
+  end.
+
+Lemma api_op_strict c L0 o : api_op o -> op_strict c L0 o.
+Proof. destruct o as [| | ? ? [|] ?| | | | | | | | | |]; cbn; intro H; try contradiction; exact I. Qed.
+
+Lemma run_api c k L0 h p s a z :
+  Forall api_op h ->
+  get p (bk (fst (run c k (mkState [] L0 0 []) h))) = Some s -> In (a, z) s ->
+  remembered_strict c L0 p a.
+Proof.
+  intro H. apply run_strict. rewrite Forall_forall in *. intros o Ho. apply api_op_strict. exact (H o Ho).
 Qed.
